@@ -8,7 +8,8 @@ driver ops of C12 (prefix `c12.`)
   content to `[id]`, commits; `wra` writer, appends, rolls back; `wcn` writer, changes nothing, "commits" (the code takes
   the rollback path); `rd` reader.  `wwa` = `wca` through `with txn:`; `wxa` = `wra` through an exception in the `with` body;
   `wda` = `wca` followed by refused second ends; `rdw` = `rd` through `with`; `wcR` / `wrR` = `writer(replacement=True)`,
-  appends its id to the empty version, commits / rolls back.
+  appends its id to the empty version, commits / rolls back.  A trailing `!` on a committing role = the pruning
+  policy raised during its commit (`ver-` record: the appended version is withdrawn).
 * rec: `<tid>:<label>`: one record per *visible* step of the implementation, in execution order
   (`acq rel new.E app.E wait.E set.E pop.E txn+ txn- wev- ver nod rd+ rd- ret rret seen`), plus `<tid>:blk`
   (the thread is blocked in `acquire`/`wait`) and `0:fin`.
@@ -34,27 +35,32 @@ def showState (s : State) : String :=
     ++ "S" ++ showList (sortU s.evSet) ++ "V" ++ toString s.lastId ++ ":" ++ showList s.lastVersion.2
     ++ "N" ++ showList s.nodes ++ "R" ++ showList (sortU s.readers)
 
-def parseRole (s : String) : Option (Role × Nat) :=
+def parseRole0 (s : String) : Option (Role × Nat) :=
   if s = "wca" ∨ s = "wwa" ∨ s = "wda" then some (.writer true, 0) else if s = "wcr" then some (.writer true, 1)
   else if s = "wxa" then some (.writer false, 0) else if s = "rdw" then some (.reader, 2)
   else if s = "wra" then some (.writer false, 0) else if s = "wcn" then some (.writer false, 2)
   else if s = "wcR" then some (.writer true, 3) else if s = "wrR" then some (.writer false, 3)
   else if s = "rd" then some (.reader, 2) else none
 
+/-- a trailing `!` = the pruning policy raised during this writer's commit (code + 10) -/
+def parseRole (s : String) : Option (Role × Nat) :=
+  if s.endsWith "!" then (parseRole0 ((s.dropEnd 1).toString)).map fun (r, k) => (r, k + 10) else parseRole0 s
+
 def mkCfg (rs : List (Role × Nat)) : Cfg :=
   { role := fun t => ((rs[t]?).map (·.1)).getD .reader
-    body := fun t c => match (rs[t]?).map (·.2) with
+    body := fun t c => match (rs[t]?).map (·.2 % 10) with
       | some 0 => c ++ [t]
       | some 1 => [t]
       | some 3 => c ++ [t]
       | _ => c
-    repl := fun t => (rs[t]?).map (·.2) == some 3 }
+    repl := fun t => (rs[t]?).map (·.2 % 10) == some 3
+    pruneFails := fun t => ((rs[t]?).map (fun r => decide (r.2 ≥ 10))).getD false }
 
 def parseLabel (s : String) : Option WLabel :=
   match splitOnChar s '.' with
   | ["acq"] => some .acq | ["rel"] => some .rel
   | ["txn+"] => some .txnOpen | ["txn-"] => some .txnClose | ["wev-"] => some .wevClear
-  | ["ver"] => some .ver | ["nod"] => some .nod | ["rd+"] => some .rdAdd | ["rd-"] => some .rdDel
+  | ["ver"] => some .ver | ["ver-"] => some .verDrop | ["nod"] => some .nod | ["rd+"] => some .rdAdd | ["rd-"] => some .rdDel
   | ["ret"] => some .ret | ["rret"] => some .rret | ["seen"] => some .seen
   | ["new", e] => e.toNat?.map Writers.Label.new | ["app", e] => e.toNat?.map Writers.Label.app | ["wait", e] => e.toNat?.map Writers.Label.wait
   | ["set", e] => e.toNat?.map Writers.Label.set | ["pop", e] => e.toNat?.map Writers.Label.pop
@@ -63,7 +69,7 @@ def parseLabel (s : String) : Option WLabel :=
 def showLabel : WLabel → String
   | .tau => "tau" | .acq => "acq" | .rel => "rel" | .new e => s!"new.{e}" | .app e => s!"app.{e}"
   | .wait e => s!"wait.{e}" | .set e => s!"set.{e}" | .pop e => s!"pop.{e}" | .txnOpen => "txn+"
-  | .txnClose => "txn-" | .wevClear => "wev-" | .ver => "ver" | .nod => "nod" | .rdAdd => "rd+" | .rdDel => "rd-"
+  | .txnClose => "txn-" | .wevClear => "wev-" | .ver => "ver" | .verDrop => "ver-" | .nod => "nod" | .rdAdd => "rd+" | .rdDel => "rd-"
   | .ret => "ret" | .rret => "rret" | .seen => "seen" | .stuck => "stuck"
 
 def localSuffix (s : State) (t : Tid) : WLabel → String
